@@ -111,7 +111,8 @@ def invoke(fid: str, kwargs: dict[str, Any], res: Any = None) -> Any:
     fail = fd.get("fail")
     if fail is not None:
         w = fail["when"]
-        if w == "*" or (isinstance(w, int) and w == base["n"]) or (isinstance(w, dict) and w == kw_json):
+        if (w == "*" or (isinstance(w, int) and w == base["n"]) or (isinstance(w, dict) and w == kw_json)
+                or (isinstance(w, list) and kw_json in w)):
             eargs = list(fail.get("args", []))
             if fail.get("argskw"):           # the exception's args name the failing invocation (so that a stale snapshot /
                 eargs.append(json.dumps(kw_json, sort_keys=True))   # exception of an EARLIER failure is distinguishable)
